@@ -44,6 +44,7 @@ type Interp struct {
 	digitFns    map[*types.Func]bool // methods of the number accumulator that use their byte argument as a decimal digit (b - '0')
 	mirrorFns   map[*types.Func]bool // methods of the number accumulator that add their byte argument to the text buffer when it is in use
 	trackReads  bool                 // record reads-before-write of tracked fields (liveness sampling)
+	posFld      map[string]bool      // receiver fields a ParseError is built from (line, newline offset)
 	noScratch   bool                 // scratch-buffer typestate is not followed (decided by the exploration of the machine alone)
 	undecided   []string
 	maxDepth    int
@@ -605,6 +606,10 @@ func (in *Interp) assignTo(lhs ast.Expr, v Val, st *State, pos token.Pos) []*Sta
 			return []*State{st}
 		}
 		st.markAssigned(f)
+		if in.posFld[f] && v.K == kOff && (v.A != 0 || v.Flag) && st.cur == '\n' {
+			// the newline offset must be the offset of the newline byte itself: the column of a later error is counted from it
+			st.notes = append(st.notes, "pos-misassign:"+f+":"+v.String()+":"+in.prog.Pos(pos))
+		}
 		if in.stackFld[f] {
 			in.undecide(pos, "container stack %s assigned a value of unrecognised form", f)
 			return nil
